@@ -849,7 +849,61 @@ fn sequences(r: &Report) {
     r.sample(sub, json!({"calls": "[BeginMap, U8(0), Array(1), Null, End]", "output_hex": "bf0081f6ff"}));
 }
 
+/// A sink that keeps the first 16 bytes and counts the rest.
+struct HeadSink {
+    head: Vec<u8>,
+    total: u64,
+}
+
+impl minicbor::encode::Write for HeadSink {
+    type Error = std::convert::Infallible;
+    fn write_all(&mut self, buf: &[u8]) -> Result<(), Self::Error> {
+        let room = 16usize.saturating_sub(self.head.len());
+        self.head.extend_from_slice(&buf[..buf.len().min(room)]);
+        self.total += buf.len() as u64;
+        Ok(())
+    }
+}
+
+/// Strings whose length needs the 8-byte argument (>= 2^32 bytes): a zero-filled allocation that is never written
+/// to (the pages are mapped lazily), encoded into a counting sink.
+fn huge_strings(r: &Report) {
+    let sub = "huge-strings";
+    r.space(sub, true, "Encoder::bytes / Encoder::str / Encode for &[u8]-like types on strings of 2^32 - 1, 2^32 and 2^32 + 5 bytes into a counting sink: the head must be the shortest one for the length and the total the head plus the payload", 1);
+    let n_max = (1usize << 32) + 5;
+    let big: Vec<u8> = vec![0u8; n_max];
+    let text = std::str::from_utf8(&big).expect("zeros are valid UTF-8");
+    let mut n = 0u64;
+    let mut ok = 0u64;
+    for len in [(1usize << 32) - 1, 1 << 32, n_max] {
+        let calls: [(&str, u8, Box<dyn Fn(&mut Encoder<HeadSink>) -> bool>); 4] = [
+            ("Encoder::bytes", 2, Box::new(|e| e.bytes(&big[..len]).is_ok())),
+            ("Encoder::str", 3, Box::new(|e| e.str(&text[..len]).is_ok())),
+            ("encode(&ByteSlice)", 2, Box::new(|e| e.encode(<&minicbor::bytes::ByteSlice>::from(&big[..len])).is_ok())),
+            ("encode(&str)", 3, Box::new(|e| e.encode(&text[..len]).is_ok())),
+        ];
+        for (what, major, call) in calls.iter() {
+            n += 1;
+            mcx::slot::case(what, &(len as u64).to_be_bytes());
+            let mut e = Encoder::new(HeadSink { head: Vec::new(), total: 0 });
+            let res = mcx::par::guard(|| call(&mut e));
+            let sink = e.into_writer();
+            let want_head = refmodel::preferred_head(*major, len as u64);
+            let good = res == Ok(true) && sink.head.starts_with(&want_head) && sink.total == (want_head.len() + len) as u64;
+            if good {
+                ok += 1;
+            } else {
+                r.fail(sub, None, json!({"call": what, "length": len}), format!("result {:?}, wrote {} bytes starting with {}; the head for this length is {}", res, sink.total, hex(&sink.head), hex(&want_head)));
+            }
+        }
+    }
+    r.add(sub, n, ok);
+    r.add_states(sub, n, n);
+    r.outcome(sub, "shortest head and full payload", ok);
+}
+
 pub fn run(r: &Report) {
+    huge_strings(r);
     methods(r);
     builtin_types(r);
     sequences(r);
